@@ -10,6 +10,7 @@ type snapshot struct {
 	nextMap int
 	fnSeen  map[*ssa.Function]int
 	steps   int
+	extInit map[*ssa.Package]bool
 }
 
 type cloner struct {
@@ -146,6 +147,10 @@ func (in *Interp) takeSnapshot(h *ssa.Function) {
 		sn.fnSeen[f] = n
 	}
 	sn.globals = cloneGlobals(in.globals)
+	sn.extInit = map[*ssa.Package]bool{}
+	for k, v := range in.extInit {
+		sn.extInit[k] = v
+	}
 	in.snap = sn
 }
 
@@ -154,6 +159,9 @@ func (in *Interp) restoreSnapshot() {
 	in.nextObj = in.snap.nextObj
 	in.nextMap = in.snap.nextMap
 	in.steps = in.snap.steps
+	for k, v := range in.snap.extInit {
+		in.extInit[k] = v
+	}
 	for f, n := range in.snap.fnSeen {
 		in.fnSeen[f] = n
 	}
